@@ -316,7 +316,6 @@ func (e *Exec) chanRecv(c *Chan, commaOk bool, elem types.Type) Value {
 			continue
 		}
 		w.done = true
-		s.cur, w.g = s.cur, w.g
 		// log the send as performed by the sender
 		cur := s.cur
 		s.cur = w.g
